@@ -12,6 +12,15 @@ def tie_violations(ck, res, want_kinds=("parse", "fail", "baseline", "stripped")
             ck.violation("gocc did not terminate on a grammar", {"bnf": r["text"]})
             continue
         model_panics = r["model_lrtab"] == "panic"
+        if (r["model_lrtab"] == "refused") != (r["rc_a"] == 1 and "Parse error" in r["out_a"]):
+            # the semantic checks (Model/SemCheck.lean: duplicates, undefined names, reserved spellings) refuse the file with status 1
+            ck.violation("correspondence broken: gocc status %s but the model of the semantic checks says %s" % (r["rc_a"], r["model_lrtab"][:40]),
+                         {"bnf": r["text"], "rc": r["rc_a"], "stdout": r["out_a"][-300:], "stderr": r["err_a"][-300:],
+                          "unchecked": "correspondence Gocc.semCheck vs ast.consistent"}, found_input=False)
+            if r["rc_a"] != 0:
+                continue
+        elif r["model_lrtab"] == "refused":
+            continue
         if (r["rc_a"] == 2) != model_panics:
             ck.violation("correspondence broken: gocc status %s but generator model says %s" % (r["rc_a"], r["model_lrtab"][:40]),
                          {"bnf": r["text"], "rc": r["rc_a"], "stderr": r["err_a"][-600:], "unchecked": "correspondence Gocc.genParser (panic paths)"},
